@@ -67,18 +67,7 @@ func C04(r *report.Report, tier string) {
 	s1 := RunSeq(r, "c04.seq", depth)
 	s2 := RunSeq(r, "c04.off", offDepth)
 	r.Extra["searches"] = []*SeqSummary{s1, s2}
-	for _, h := range concHarnesses() {
-		if timeUp() {
-			r.Exhaustive = false
-			break
-		}
-		s := ExploreAll(r, "nfs.conc", h, bound, vrt.PUnlock, false)
-		r.Sample(map[string]interface{}{"harness": h.Name, "executions": s.Execs})
-	}
 	var jobs []crashArg
-	for _, h := range crashHistories(crashAlphabet(), cdepth) {
-		jobs = append(jobs, crashArg{Prop: "C04", DiskSize: 3000, Setup: crashSetup, Ops: h, Cap: cap, Probe: crashProbe, FsckOnly: true})
-	}
 	// images cut between the background transactions that free a 530-block file
 	maxImg := 200
 	if tier == "thorough" {
@@ -87,6 +76,17 @@ func C04(r *report.Report, tier string) {
 	for _, h := range [][]fsx.Op{{{K: "REMOVE", H: "root", N: "big"}}, {{K: "SETATTR", H: "root/big", Size: 0}}} {
 		jobs = append(jobs, crashArg{Prop: "C04", DiskSize: 3000, Setup: big530Setup, Ops: h, Cap: 64, MaxImages: maxImg, FsckOnly: true, Probe: &fsx.Probe{Full: 4 << 20}})
 	}
+	for _, h := range crashHistories(crashAlphabet(), cdepth) {
+		jobs = append(jobs, crashArg{Prop: "C04", DiskSize: 3000, Setup: crashSetup, Ops: h, Cap: cap, Probe: crashProbe, FsckOnly: true})
+	}
 	runCrashJobs(r, jobs, map[string]bool{"C04": true})
+	for _, h := range concHarnesses() {
+		if timeUp() {
+			r.Exhaustive = false
+			break
+		}
+		s := ExploreAll(r, "nfs.conc", h, bound, vrt.PUnlock, false)
+		r.Sample(map[string]interface{}{"harness": h.Name, "executions": s.Execs})
+	}
 	r.Extra["bounds"] = map[string]int{"depth": depth, "crash_depth": cdepth, "deviations": bound, "loss_product_cap": cap}
 }
